@@ -150,14 +150,17 @@ def load_theory_cache(filename, username="master"):
 
     # Load all required macros and methods for this file.
     # Make table for this later.
-    if filename == 'logic':
-        from prover import z3wrapper
-    if filename == 'expr':
-        from data import expr
-    if filename == 'real':
-        from data import real
-    if filename == 'hoare':
-        from imperative import imp
+    # Some of these modules call load_theory when imported, which replaces
+    # theory.thy. Protect the theory currently being built by the caller.
+    with theory.fresh_theory():
+        if filename == 'logic':
+            from prover import z3wrapper
+        if filename == 'expr':
+            from data import expr
+        if filename == 'real':
+            from data import real
+        if filename == 'hoare':
+            from imperative import imp
 
     # Load all imported theories
     depend_list = get_import_order(cache['imports'], username)
